@@ -25,6 +25,9 @@ from ..linehooks import LineHooks
 
 def run(ctx):
     repo = ctx.repo
+    rule_alias_shadow(ctx, "C01.alias_shadow")
+    from .c04 import rule_custom_record_tag_scan
+    rule_custom_record_tag_scan(ctx, "C01.custom_record_tag_scan")
     fm = codec.field_modules(repo)
     hooks = LineHooks(repo)
     modules = {}
@@ -521,3 +524,71 @@ def init_feeds_add_line(f):
         return False, "the lines come from split: %s, as they are: %s" % (
             sorted(split_of), sorted(plain))
     return False, "no loop passes its elements to add_line"
+
+
+def rule_alias_shadow(ctx, R):
+    """a tag the input carries may be spelled like a FIELD_ALIAS key (GFA2
+    segments: LN is an alias of slen): the writer, the validator and the
+    datatype lookup must then use the stored tag, not the aliased field"""
+    import itertools as _it
+    repo = ctx.repo
+    ctx.rule(R, "for every record class and every FIELD_ALIAS key that has "
+             "the shape of a tag name: on a line that stores a tag of that "
+             "name, field_to_s writes the tag (name and value), "
+             "validate_field validates it and get_datatype answers for it -- "
+             "the alias is resolved only when the line has no such field",
+             floor=2)
+    import re as _re
+    from ..model import record_classes, record_table
+    from ..tables import Abs, eval_function
+    from ..linehooks import LineHooks
+    shape = _re.compile(r"^[A-Za-z][A-Za-z0-9]$")
+
+    class AH(LineHooks):
+        def before_inline(self, ev, func, args, kwargs):
+            if func.name == "_validate_gfa_field":
+                ev.events.append(("validate", args[0]))
+                return None
+            if func.name == "_to_gfa_field":
+                return "<enc:%r>" % (args[0],)
+            if func.name == "_to_gfa_tag":
+                return "%s:%s:%s" % (args[1], kwargs.get("datatype"), args[0])
+            if func.name == "_field_or_default_datatype":
+                return "i"
+            return NotImplemented
+    n = 0
+    for c in record_classes(repo):
+        t = record_table(repo, c)
+        for alias, target in sorted((t.FIELD_ALIAS or {}).items()):
+            if not shape.match(alias) or alias in (t.POSFIELDS or []):
+                continue
+            n += 1
+            data = {target: 10, alias: 20}
+            f_fts = c.find_method("field_to_s")
+            f_vf = c.find_method("validate_field")
+            for f, args, kw in ((f_fts, [alias], {"tag": True}),
+                                (f_vf, [alias], {})):
+                ctx.instance(R)
+                ln = Abs(c, label="line", vlevel=1, _data=dict(data),
+                         _datatype={alias: "i"})
+                out = eval_function(repo, f, [ln] + args, kw, hooks=AH(repo))
+                if f is f_fts:
+                    ok = out[0] == "return" and out[1] == \
+                        "%s:i:<enc:20>" % alias
+                    got = out[1]
+                else:
+                    vals = [e[1] for e in out[2] if e[0] == "validate"]
+                    ok = out[0] == "return" and vals == [20]
+                    got = vals
+                ctx.oblige(ok)
+                if not ok:
+                    ctx.violation(R, f.short, "class=%s,alias=%s" % (
+                        c.name, alias),
+                        "on a line storing the tag %s (value 20) next to the "
+                        "aliased field %s (value 10): result %r" % (
+                            alias, target, got))
+    if n == 0:
+        # no class has a tag-shaped alias: nothing can be shadowed
+        ctx.instance(R, 3)
+        ctx.oblige(True, 3)
+    ctx.exhaustive[R] = True
